@@ -311,6 +311,63 @@ class DequeGen:
             if rng.random() < 0.04:
                 break
 
+    def zip_self_program(self, rng, s, ops, slot=0, fault=False, reject=False, allow_fail=False):
+        """zip iterator with the SAME deque on both sides (`zit_new o=k o2=k`): the library then works on
+        one object through both pointers — add inserts two elements (…, w, v, …), remove takes the yielded
+        element and its successor, replace leaves the second value.
+        Excluded (see corpus/deque/defect_zip_alias_add_swallows_refusal.ops): an aliased zit_add whose
+        *second* add_at has to grow must not meet a refusal — the library ignores that status."""
+        ops.append(f"zit_new o={slot} o2={slot}")
+        pos = 0
+        if reject and rng.random() < 0.5:
+            ops.append(rng.choice(["zit_remove", f"zit_replace {pick_value(rng)} {pick_value(rng)}"]))
+        p_mut = rng.choice([0.0, 0.4, 0.8])
+        kinds = rng.choice([["remove"], ["add"], ["replace"], ["remove", "add", "replace"]])
+        steps = 0
+        while steps < 40:
+            steps += 1
+            ops.append("zit_next")
+            if pos >= len(s.items):
+                if rng.random() < 0.3:
+                    ops.append("zit_next")
+                if reject and rng.random() < 0.5:
+                    ops.append(f"zit_add {pick_value(rng)} {pick_value(rng)}")     # behind the end: rejected
+                break
+            pos += 1
+            if rng.random() < 0.3:
+                ops.append("zit_index")
+            if rng.random() < p_mut:
+                k = rng.choice(kinds)
+                n = len(s.items)
+                if k == "remove":
+                    del s.items[pos - 1]
+                    if pos - 1 < len(s.items):
+                        del s.items[pos - 1]
+                    pos -= 1
+                    ops.append("zit_remove" + (" noout=1" if rng.random() < 0.2 else ""))
+                    if reject and rng.random() < 0.3:
+                        ops.append("zit_remove")
+                elif k == "add":
+                    if pos < n and not fault and not d3_excluded(pos, n) and not d3_excluded(pos, n + 1):
+                        v, w = pick_value(rng), pick_value(rng)
+                        cap1 = s.cap * 2 if s.grows() else s.cap          # growth test of zip_iter_add itself
+                        second_grows = (n + 1 == cap1)                    # the second add_at grows on its own
+                        fl, refused = "", False
+                        if allow_fail and s.grows() and not second_grows and rng.random() < 0.4:
+                            fl, refused = " fail=1", True                 # refused before anything happened: atomic
+                        if not refused:
+                            s.cap = cap1 * 2 if second_grows else cap1
+                            s.items.insert(pos, v)
+                            s.items.insert(pos, w)
+                            pos += 1
+                        ops.append(f"zit_add {v} {w}{fl}")
+                else:
+                    v, w = pick_value(rng), pick_value(rng)
+                    s.items[pos - 1] = w
+                    ops.append(f"zit_replace {v} {w}" + (" noout=1" if rng.random() < 0.2 else ""))
+            if rng.random() < 0.05:
+                break
+
     # ------------------------------------------------------------------ builders
     def derived_program(self, rng, sims, ops, fault=False, reject=False, allow_fail=False):
         """build a derived deque from slot 0 into a free slot, then mutate both alternately, drop one"""
@@ -433,6 +490,25 @@ class DequeGen:
                         out.append(pre + pre2 + head + ["zit_replace 77 88"] + tail + ["destroy"])
                         if k < s and k < s2 and not d3_excluded(k, s) and not d3_excluded(k, s2):
                             out.append(pre + pre2 + head + ["zit_add 77 88", "zit_index"] + tail + ["destroy"])
+        if focus in ("iter", "growth", "all"):
+            # the SAME deque on both sides of the zip iterator, capacities 1..4 (3 is rounded up), exactly
+            # 0 or 1 free slots, every front offset, one mutation after the k-th yield
+            for cc in (1, 2, 3, 4):
+                cap = upper_pow_two(cc)
+                for f in range(cap):
+                    for s in sorted({cap, cap - 1}):
+                        if s < 0:
+                            continue
+                        pre = [f"new cap={cc}"] + self.layout(cap, f, s)[1:]
+                        out.append(pre + ["zit_new o=0 o2=0"] + ["zit_next", "zit_index"] * s + ["zit_next", "zit_next", "destroy"])
+                        for k in range(1, s + 1):
+                            head = ["zit_new o=0 o2=0"] + ["zit_next"] * k
+                            tail = ["zit_next"] * (s - k + 3)
+                            out.append(pre + head + ["zit_remove", "zit_index"] + tail + ["destroy"])
+                            out.append(pre + head + ["zit_remove", "zit_remove"] + tail + ["destroy"])
+                            out.append(pre + head + ["zit_replace 77 88"] + tail + ["destroy"])
+                            if k < s and not d3_excluded(k, s) and not d3_excluded(k, s + 1):
+                                out.append(pre + head + ["zit_add 77 88", "zit_index"] + tail + ["get_at 0", "destroy"])
         if focus in ("derived", "all"):
             dcaps = (1, 2, 4) if tier == "quick" else (1, 2, 4, 8)
             for cap, f, s in self.layouts(dcaps):
@@ -461,6 +537,8 @@ class DequeGen:
                     out.append(pre + [o, "add_last 5", "get_at 0", "destroy"])
                 out.append(pre + ["remove_first", "trim", "add_last 5", "destroy"])
                 out.append(pre + ["it_new", "it_next", "it_next", "it_next", "it_next", "it_add 9", "destroy"])
+                if cap >= 4:      # same deque on both sides, full: the only allocation is zip_iter_add's own growth test
+                    out.append(pre + ["zit_new o=0 o2=0"] + ["zit_next"] * (cap // 2 + 1) + ["zit_add 7 8", "zit_next", "get_at 0", "destroy"])
                 pre2 = self.layout(cap, 0, cap, slot=1, base=50)
                 if cap >= 2:
                     out.append(pre + pre2 + ["zit_new o=0 o2=1", "zit_next"] + ["zit_next"] * (cap // 2 + 1) + ["zit_add 7 8", "zit_next", "destroy"])
@@ -491,7 +569,9 @@ class DequeGen:
                 s0 = sims[0]
                 p_iter = {"iter": 0.12, "all": 0.05}.get(focus, 0.0)
                 p_der = {"derived": 0.15, "all": 0.05, "fault": 0.05}.get(focus, 0.0)
-                if focus == "growth" and r < 0.85:
+                if focus == "growth" and r < 0.012:
+                    self.zip_self_program(rng, s0, ops, slot=0)
+                elif focus == "growth" and r < 0.85:
                     self.core_op(rng, s0, ops, only=rng.choice(["add_last", "add_first", "add_last", "add"]))
                 elif r < p_iter:
                     if rng.random() < 0.65:
@@ -503,8 +583,11 @@ class DequeGen:
                             ops.append(f"new cap={c2} o=1")
                         for _ in range(rng.randint(0, 9)):
                             self.core_op(rng, sims[1], ops, slot=1, only=rng.choice(["add_last", "add_first", "remove_first", "add_last"]))
-                        a, b = rng.choice([(0, 1), (1, 0)])
-                        self.zip_program(rng, sims[a], sims[b], ops, a=a, b=b, fault=fault, reject=reject, allow_fail=allow_fail)
+                        if rng.random() < 0.25:      # the same deque on both sides
+                            self.zip_self_program(rng, s0, ops, slot=0, fault=fault, reject=reject, allow_fail=allow_fail)
+                        else:
+                            a, b = rng.choice([(0, 1), (1, 0)])
+                            self.zip_program(rng, sims[a], sims[b], ops, a=a, b=b, fault=fault, reject=reject, allow_fail=allow_fail)
                 elif r < p_iter + p_der:
                     self.derived_program(rng, sims, ops, fault=fault, reject=reject, allow_fail=allow_fail)
                 elif focus in ("derived", "all") and r < p_iter + p_der + 0.015:
